@@ -37,30 +37,16 @@ def okWrites (start period : Nat) (d : Dev) : List Write :=
 /-- SYNC1 periods representable in 64 bits (`u64::try_from(sync1_period.as_nanos())` succeeds). -/
 def Sync1Fits (d : Dev) : Prop := ∀ s1, d.sync = .sync01 s1 → s1 < U64
 
-theorem startTime_ok (m : Mode) (sys delay period : Nat) (h : sys + delay < U64) (hp : 0 < period) :
-    startTime m sys delay period = .ok ((sys + delay) / period * period) := by
-  have hle : (sys + delay) / period * period ≤ sys + delay := Nat.div_mul_le_self _ _
-  have hlt : (sys + delay) / period * period < U64 := by omega
+theorem startTime_ok (m : Mode) (first period : Nat) (h : first < U64) (hp : 0 < period) :
+    startTime m first period = .ok (first / period * period) := by
+  have hle : first / period * period ≤ first := Nat.div_mul_le_self _ _
+  have hlt : first / period * period < U64 := by omega
   have hp' : period ≠ 0 := by omega
-  simp [startTime, addU64, divU64, mulU64, h, hp', hlt]
+  simp [startTime, divU64, mulU64, hp', hlt]
 
-theorem startTime_overflow_checked (sys delay period : Nat) (h : U64 ≤ sys + delay) :
-    startTime .checked sys delay period = .panic "attempt to add with overflow" := by
-  have : ¬ sys + delay < U64 := by omega
-  simp [startTime, addU64, this]
-
-theorem startTime_overflow_wrapping (sys delay period : Nat) (h : U64 ≤ sys + delay) (hp : 0 < period) :
-    startTime .wrapping sys delay period = .ok ((sys + delay) % U64 / period * period) := by
-  have h1 : ¬ sys + delay < U64 := by omega
-  have hle : (sys + delay) % U64 / period * period ≤ (sys + delay) % U64 := Nat.div_mul_le_self _ _
-  have hm : (sys + delay) % U64 < U64 := Nat.mod_lt _ (by decide)
-  have hlt : (sys + delay) % U64 / period * period < U64 := by omega
-  have hp' : period ≠ 0 := by omega
-  simp [startTime, addU64, divU64, mulU64, h1, hp', hlt]
-
-theorem devBody_ok (m : Mode) (sys delay period start : Nat) (d : Dev)
-    (hs : startTime m sys delay period = .ok start) (hf : Sync1Fits d) :
-    devBody m sys delay period d = (okWrites start period d, .ok ()) := by
+theorem devBody_ok (m : Mode) (first period start : Nat) (d : Dev)
+    (hs : startTime m first period = .ok start) (hf : Sync1Fits d) :
+    devBody m first period d = (okWrites start period d, .ok ()) := by
   unfold devBody okWrites
   rw [hs]
   cases hsync : d.sync with
@@ -71,10 +57,10 @@ theorem devBody_ok (m : Mode) (sys delay period start : Nat) (d : Dev)
     simp [this]
     decide
 
-theorem devBody_addr (m : Mode) (sys delay period : Nat) (d : Dev) :
-    ∀ w ∈ (devBody m sys delay period d).1, w.addr = d.addr := by
+theorem devBody_addr (m : Mode) (first period : Nat) (d : Dev) :
+    ∀ w ∈ (devBody m first period d).1, w.addr = d.addr := by
   unfold devBody
-  cases startTime m sys delay period with
+  cases startTime m first period with
   | panic s => simp
   | err e => simp
   | ok st =>
@@ -84,32 +70,32 @@ theorem devBody_addr (m : Mode) (sys delay period : Nat) (d : Dev) :
     | sync01 s1 =>
       by_cases h : s1 < U64 <;> simp [h]
 
-theorem devLoop_ok (m : Mode) (sys delay period start : Nat)
-    (hs : startTime m sys delay period = .ok start) (devs : List Dev)
+theorem devLoop_ok (m : Mode) (first period start : Nat)
+    (hs : startTime m first period = .ok start) (devs : List Dev)
     (hf : ∀ d ∈ devs, Sync1Fits d) :
-    devLoop m sys delay period devs = (((devs.filter (fun d => wants d)).flatMap (okWrites start period)), .ok ()) := by
+    devLoop m first period devs = (((devs.filter (fun d => wants d)).flatMap (okWrites start period)), .ok ()) := by
   induction devs with
   | nil => rfl
   | cons d ds ih =>
     have ih' := ih (fun x hx => hf x (List.mem_cons_of_mem _ hx))
     by_cases hw : wants d = true
     · simp only [devLoop, hw, if_true]
-      rw [devBody_ok m sys delay period start d hs (hf d (List.mem_cons_self ..)), ih']
+      rw [devBody_ok m first period start d hs (hf d (List.mem_cons_self ..)), ih']
       simp [hw]
     · simp only [devLoop, hw]
       rw [ih']
       simp [hw]
 
-theorem devLoop_addr (m : Mode) (sys delay period : Nat) (devs : List Dev) :
-    ∀ w ∈ (devLoop m sys delay period devs).1, ∃ d ∈ devs, wants d = true ∧ w.addr = d.addr := by
+theorem devLoop_addr (m : Mode) (first period : Nat) (devs : List Dev) :
+    ∀ w ∈ (devLoop m first period devs).1, ∃ d ∈ devs, wants d = true ∧ w.addr = d.addr := by
   induction devs with
   | nil => simp [devLoop]
   | cons d ds ih =>
     intro w hwm
     by_cases hw : wants d = true
     · simp only [devLoop, hw, if_true] at hwm
-      have hb := devBody_addr m sys delay period d
-      rcases hbody : devBody m sys delay period d with ⟨ws, r⟩
+      have hb := devBody_addr m first period d
+      rcases hbody : devBody m first period d with ⟨ws, r⟩
       rw [hbody] at hwm hb
       cases r with
       | ok u =>
@@ -124,26 +110,5 @@ theorem devLoop_addr (m : Mode) (sys delay period : Nat) (devs : List Dev) :
     · simp only [devLoop, hw] at hwm
       rcases ih w hwm with ⟨d', hd', hw', ha⟩
       exact ⟨d', List.mem_cons_of_mem _ hd', hw', ha⟩
-
-/-- In checked builds the loop panics at the first device that wants DC when `sys + delay`
-    overflows, after having written only the deactivation of that device. -/
-theorem devLoop_overflow_checked (sys delay period : Nat) (h : U64 ≤ sys + delay) (devs : List Dev)
-    (hex : ∃ d ∈ devs, wants d = true) :
-    ∃ a, devLoop .checked sys delay period devs
-      = ([⟨a, 0x0981, [0]⟩], .panic "attempt to add with overflow") := by
-  induction devs with
-  | nil => simp at hex
-  | cons d ds ih =>
-    by_cases hw : wants d = true
-    · refine ⟨d.addr, ?_⟩
-      simp only [devLoop, hw, if_true, devBody, startTime_overflow_checked sys delay period h]
-      rfl
-    · have : ∃ d ∈ ds, wants d = true := by
-        rcases hex with ⟨x, hx, hxw⟩
-        rcases List.mem_cons.1 hx with rfl | hx'
-        · exact absurd hxw hw
-        · exact ⟨x, hx', hxw⟩
-      rcases ih this with ⟨a, ha⟩
-      exact ⟨a, by simp only [devLoop, hw]; exact ha⟩
 
 end Ec.DcSync
